@@ -375,7 +375,9 @@ impl<C: CrcCalculator> Encapsulator<C> {
             }
 
             pkt_type = PktType::FirstFragPkt;
-            pdu_len_encapsulated = buffer_len - min_header_len;
+            // a GSE packet is limited to GSE_LEN_MAX: never fill more of a larger buffer
+            pdu_len_encapsulated = (buffer_len - min_header_len)
+                .min((GSE_LEN_MAX + FIXED_HEADER_LEN).saturating_sub(min_header_len));
             gse_len =
                 (FRAG_ID_LEN + TOTAL_LENGTH_LEN + PROTOCOL_LEN + label_len + pdu_len_encapsulated)
                     as u16;
@@ -672,7 +674,9 @@ impl<C: CrcCalculator> Encapsulator<C> {
             }
 
             pkt_type = PktType::FirstFragPkt;
-            pdu_len_encapsulated = buffer_len - min_header_len;
+            // a GSE packet is limited to GSE_LEN_MAX: never fill more of a larger buffer
+            pdu_len_encapsulated = (buffer_len - min_header_len)
+                .min((GSE_LEN_MAX + FIXED_HEADER_LEN).saturating_sub(min_header_len));
             gse_len = (FRAG_ID_LEN
                 + TOTAL_LENGTH_LEN
                 + PROTOCOL_LEN
@@ -882,7 +886,9 @@ pub fn encap_preview(
         }
 
         pkt_type = PktType::FirstFragPkt;
-        pdu_len_encapsulated = buffer_len - min_header_len;
+        // a GSE packet is limited to GSE_LEN_MAX: never fill more of a larger buffer
+        pdu_len_encapsulated = (buffer_len - min_header_len)
+            .min((GSE_LEN_MAX + FIXED_HEADER_LEN).saturating_sub(min_header_len));
         gse_len = (FRAG_ID_LEN + TOTAL_LENGTH_LEN + PROTOCOL_LEN + label_len + pdu_len_encapsulated)
             as u16;
         pkt_len = gse_len + (FIXED_HEADER_LEN) as u16;
